@@ -132,7 +132,6 @@ func RunC04(a, b *boundPkg, scale int) {
 func (p *pair) forward(r *rng.R, ra, rb *rootSpec, cases int) {
 	for i := 0; i < cases; i++ {
 		o, cfg, gp := drawCase(r, true)
-		avoidDictReencode(ra, &o, cfg)
 		o.desc = true
 		name := fmt.Sprintf("%s-fwd-%s-%d", p.a.ID, ra.name, i)
 		note("case %s", name)
@@ -197,7 +196,6 @@ func (p *pair) downgrade(r *rng.R, ra, rb *rootSpec, wa *schema.WireSchema, case
 	}
 	for i := 0; i < cases; i++ {
 		o, cfg, gp := drawCase(r, true)
-		avoidDictReencode(rb, &o, cfg)
 		o.override = wa
 		name := fmt.Sprintf("%s-%s-%s-%d", p.a.ID, kind, ra.name, i)
 		note("case %s", name)
